@@ -162,6 +162,17 @@ pub fn c03_table(_tier: &str) -> Value {
         b.extend_from_slice(&p.to_le_bytes());
         bases.push(b);
     }
+    // chunks whose padding bytes are NOT zero but are covered by a correct payload CRC word, for every chunk id 0..8 and every
+    // unaligned payload length: must be rejected whatever the other header fields are
+    for id in 0..8u16 { for len in [1usize, 2, 3, 5, 6, 7] { for flags in 0..2u8 {
+        let payload: Vec<u8> = (0..len).map(|i| (i * 13 + 5) as u8).collect();
+        let mut b = make_chunk(SPEC_PADWING[3].2, (id % 4) as u8, flags, id, &payload);
+        let n = b.len();
+        b[n - 5] = 0x5A;                                   // last padding byte
+        let p = !crc32c::crc32c(&b[20..n - 4]);
+        b[n - 4..].copy_from_slice(&p.to_le_bytes());
+        bases.push(b);
+    } } }
     for base in &bases {
         let len = base.len();
         mutations(base, &[8, 12, 14], |b| {
